@@ -1,6 +1,8 @@
 // Package c01 decides C01 (compiled programs behave like the reference
-// toolchain) on the MiniGo fragment: TLC evaluates spec/MiniGo.tla on every
-// (program, input) pair; the compiled program (plain build, non-suspending
+// toolchain) on MiniGo (the sequential core: control flow, calls, closures, and in
+// version 2 slices, arrays, maps, strings, pointers, a struct type with methods,
+// range, multi-assignment, defer, goto, run-time panics): TLC evaluates
+// spec/MiniGo.tla on every (program, input) pair; the compiled program (plain build, non-suspending
 // trace points) must print exactly the predicted observation, the compiler must
 // accept every program without internal error and emit syntactically valid
 // JavaScript.  Native Go guards the specification.
@@ -17,7 +19,7 @@ func init() { reg.Register("C01", "model_checking", Run) }
 
 // Run is the C01 check.
 func Run(c *core.Ctx, pool *gjs.Pool) {
-	c.Assumef("the MiniGo fragment: ints, bools, assignment incl. swap, if/else, for with labelled break/continue, switch with fallthrough and default anywhere, calls, closures capturing by reference; other language areas are decided by C03, C06-C09, C14, C15")
-	minigo.Check(c, pool, minigo.Config{Prop: "C01", Families: true, Random: c.Pick(300, 6000), NodeCheck: true,
+	c.Assumef("the MiniGo language of spec/MiniGo.tla: ints, bools, assignment incl. tuple and op-assignment, if/else, for and range with labelled break/continue, switch with fallthrough and default anywhere, goto, calls incl. variadic, several and named results, recursion, closures and function values, defer, slices/arrays/maps/ASCII strings/pointers/one struct type with value and pointer receiver methods and method values, run-time panics as terminations; programs whose outcome Go leaves open (append growth, map order, read-versus-call order) are kept out by construction or discarded by the specification; other language areas are decided by C03, C06-C09, C14, C15")
+	minigo.Check(c, pool, minigo.Config{Prop: "C01", Families: true, Random: c.Pick(300, 6000), Random2: c.Pick(150, 4000), NodeCheck: true,
 		Modes: []minigo.Mode{{Name: "plain"}, {Name: "resumable", Flat: true, Masks: 0}}})
 }
